@@ -174,6 +174,9 @@ pub struct HistCase {
     /// optional `new_from_nodes_and_edges(nodes, edges, specs)` as the first operation
     pub ctor: Option<(Vec<(u8, Option<i32>)>, Vec<(u8, u8, W)>)>,
     pub ops: Vec<Op>,
+    /// 0 = an ordinary history; 1 / 2 = the fixed huge-graph case (undirected / directed), see `huge.rs`
+    #[serde(default)]
+    pub huge: u8,
 }
 
 fn default_universe() -> u8 {
